@@ -75,6 +75,11 @@ def run(ctx):
     _aut = _automaton()
     rule_product(ctx, _Graph(_aut), _aut, rid="R16.6")
 
+    # ------------------------------------------------------------------ R16.7 (shared with C03 R03.8)
+    # namespace_uri() / can_have_content() follow the simulator's namespace stack: its complete decision tables
+    from .c03 import rule_foreign_feedback_table, spec_tables
+    rule_foreign_feedback_table(ctx, idx, spec_tables(), rid="R16.7")
+
     ctx.not_decided += ["exact range arithmetic of finish_attr_value (closing-quote offsets) at run time", "decoding of values (encoding_rs)"]
     return ("Typestate of the attribute-building actions over every path of the %d-state automaton, the lookup/edit discipline of Attributes, "
             "the getter-to-decoder mapping, where the reported namespace is read relative to tree-builder feedback, and a lint for byte-wise "
